@@ -28,13 +28,14 @@ HAS = z3.Function("has", z3.IntSort(), z3.StringSort(), z3.BoolSort())
 
 class Token(object):
     """opaque value returned by a spy attribute"""
-    def __init__(self, owner, name):
+    def __init__(self, owner, name, ident=None):
         self.owner = owner
         self.name = name
+        self.ident = owner.ident if ident is None else ident
         self.calls = []
 
     def __call__(self, *a, **k):
-        ctx().log.append(("call", self.owner.ident, self.name, a, k))
+        ctx().log.append(("call", self.ident, self.name, a, k))
         return ("result-of", self.name)
 
 
@@ -60,7 +61,7 @@ def _spy_get(obj, ident, name, default):
         raise TypeError("attribute name must be string")
     if c.branch(HAS(z3.IntVal(ident), V.term(name)), "has-attr"):
         c.log.append(("getattr", ident, name))
-        return Token(obj, name)
+        return Token(obj, name, ident)
     if default:
         return default[0]
     raise AttributeError(name)
